@@ -49,11 +49,11 @@ def classify(d):
     return cls
 
 
-def run_cases(ctx, suite, cases, dm="null"):
+def run_cases(ctx, suite, cases, dm="null", nvars=0):
     """cases: list of (Node, events). Returns stats; reports violations / known findings."""
-    lines = [E.case_line("large", d, e, dm) for d, e in cases]
+    lines = [E.case_line("large", d, e, dm, nvars) for d, e in cases]
     H, M = E.run_batches(ctx, lines)
-    _, S = E.run_batches(ctx, [E.case_line("spec", d, e, dm) for d, e in cases], want_harness=False)
+    _, S = E.run_batches(ctx, [E.case_line("spec", d, e, dm, nvars) for d, e in cases], want_harness=False)
     need_q = [i for i in range(len(cases)) if not conforms(E.abs_trace(M[i].split(" ")), S[i].split(" "))]
     SQ = {}
     if need_q:
@@ -146,6 +146,9 @@ def run(ctx):
         if part == 0:
             d, e = cases[0]
             ctx.sample({"suite": "random", "chart": charts.sexpr(d)[:600], "events": e})
+    # the same algorithm with a scripting datamodel: variables, assignments, conditions on data
+    cases = E.gen_cases(ctx.rng, 1000 if quick else 20000, nvars=2, dm="lua")
+    st, br = run_cases(ctx, "random-lua", cases, dm="lua", nvars=2); broken += br
     if broken and not ctx.violations:
         d, evs = broken[0]
         ctx.violation("correspondence", SUITE, [E.case_line("large", d, evs)], found_input=False,
